@@ -184,6 +184,11 @@ def run_property(prop, tier="quick", seed=0, explain=None):
                 if (cfg, rule, key) not in first_keys and any(not a.ok for a in alts):
                     moved_bad.setdefault((cfg, rule), []).append([a for a in alts if not a.ok][0])
             rescued = 0
+            if os.environ.get("VERIF_DEBUG_VIEWS"):
+                for o in failing:
+                    alt = second.get((o.cfg, o.rule, o.key))
+                    print("  [view %s] %s|%s: %s" % (view, o.rule, o.key[:100], "absent" if alt is None else
+                          ("holds" if all(a.ok for a in alt) else "fails: " + json.dumps([a.detail for a in alt if not a.ok], default=str)[:1500])))
             for o in failing:
                 alt = second.get((o.cfg, o.rule, o.key))
                 if alt and all(a.ok for a in alt):
